@@ -18,6 +18,7 @@ import GbVerif.Proofs.X86SimBit
 import GbVerif.Proofs.X86SimAdc
 import GbVerif.Proofs.X86SimFlagOps
 import GbVerif.Proofs.X86SimMem
+import GbVerif.Proofs.X86SimMemDec
 import GbVerif.Proofs.X86SimMemAlu
 import GbVerif.Proofs.X86SimRotT
 import GbVerif.Proofs.X86SimJump
@@ -462,6 +463,11 @@ theorem simulation_mem_a_partial (b1 b2 : Nat) :
     SimulatesMem 0x0a b1 b2 ∧ SimulatesMem 0x1a b1 b2 ∧ SimulatesMem 0x2a b1 b2 ∧ SimulatesMem 0x3a b1 b2 ∧
     SimulatesMem 0x02 b1 b2 ∧ SimulatesMem 0x12 b1 b2 ∧ SimulatesMem 0x22 b1 b2 :=
   ⟨sim_0a b1 b2, sim_1a b1 b2, sim_ldi_ldd false b1 b2, sim_ldi_ldd true b1 b2, sim_st_a false b1 b2, sim_st_a true b1 b2, sim_sti b1 b2⟩
+
+/-- **simulation_mem_dec_partial**: LD (HL-),A (0x32), the decrementing twin of LD (HL+),A — the same bus write as the interpreter (address
+HL, byte A), then HL one lower modulo 2^16 exactly as the interpreter's `(hl + 0xffffffff) & 0xffff`; host stack and status byte untouched
+(`Proofs/X86SimMemDec.lean`: the literals are kept opaque so that neither the elaborator nor the kernel unfolds `Nat.add _ 4294967295`). -/
+theorem simulation_mem_dec_partial (b1 b2 : Nat) : SimulatesMem 0x32 b1 b2 := sim_std b1 b2
 
 example : opcodeLdHl .A = 0x7e ∧ opcodeStHl .B = 0x70 := by decide
 
